@@ -467,6 +467,7 @@ class GLRParser(Parser):
                     head.position,
                     end_position,
                     token=head.token_ahead,
+                    layout_content=head.layout_content_ahead,
                 )
                 if self.dynamic_filter and not self._call_dynamic_filter(
                     parent, head.state, to_state, SHIFT
@@ -497,6 +498,7 @@ class GLRParser(Parser):
                     head.position,
                     end_position,
                     token=head.token_ahead,
+                    layout_content=head.layout_content_ahead,
                 )
 
                 if self.dynamic_filter and not self._call_dynamic_filter(
@@ -772,6 +774,7 @@ class Parent:
         "_ambiguities",
         "production",
         "token",
+        "_layout_content",
     ]
 
     def __init__(
@@ -783,9 +786,13 @@ class Parent:
         possibilities=None,
         production=None,
         token=None,
+        layout_content=None,
     ):
         self.root = root
         self.head = head
+        # Layout before the shifted token. Kept per link as heads with
+        # different layout ahead may shift to the same GSS node.
+        self._layout_content = layout_content
         self.start_position = start_position
         self.end_position = end_position if end_position is not None else start_position
 
@@ -816,6 +823,7 @@ class Parent:
             self.end_position,
             list(self.possibilities),
             token=self.token,
+            layout_content=self._layout_content,
         )
 
     @property
@@ -889,6 +897,8 @@ class Parent:
 
     @property
     def layout_content(self):
+        if self._layout_content is not None:
+            return self._layout_content
         return self.head.layout_content
 
     @property
@@ -1051,6 +1061,7 @@ class GSSNode:
                 self.extra,
                 token_ahead=token,
                 layout_content=self.layout_content,
+                layout_content_ahead=self.layout_content_ahead,
                 debug=self.debug,
             )
             new_head.parents = dict(self.parents)
